@@ -1624,6 +1624,9 @@ def replace_for_loops_with_set_list_comp(source: str) -> str:
             yield n2, None, transaction
 
         elif core.match_template(body_node, augass_template):
+            if core.match_template(value, (ast.Constant(value=(str, bytes)), ast.JoinedStr, ast.Tuple)):
+                continue  # sum() only adds numbers
+
             if isinstance(value, ast.List):
                 replacement = ast.ListComp(elt=body_node.value, generators=generators)
             else:
@@ -1633,7 +1636,7 @@ def replace_for_loops_with_set_list_comp(source: str) -> str:
             try:
                 if not core.literal_value(value):
                     if isinstance(body_node.op, ast.Sub):
-                        replacement = ast.UnaryOp(op=body_node.op, operand=replacement)
+                        replacement = ast.UnaryOp(op=ast.USub(), operand=replacement)
                     yield value, replacement, transaction
                     yield n2, None, transaction
                     continue
